@@ -34,6 +34,8 @@ type Op struct {
 	Dev    *Dev   `json:"dev,omitempty"`
 	// history-only behaviour of the simulated caller
 	Scribble bool `json:"scribble,omitempty"` // overwrite own entropy buffer / returned seed after the call
+	// the caller was idle for J milliseconds of simulated time before this call (clock seam; no argument of the call)
+	J int64 `json:"j,omitempty"`
 }
 
 func SetStr(s string) (plain, hx string) {
@@ -60,6 +62,7 @@ func (o *Op) Key() string {
 	c.Scribble = false
 	c.Cap = 0
 	c.Shared = 0
+	c.J = 0
 	b, _ := json.Marshal(&c)
 	s := sha256.Sum256(b)
 	return hex.EncodeToString(s[:12])
